@@ -83,6 +83,7 @@ import (
 
 	"verif/mc"
 	"verif/model/afmcodec"
+	"verif/model/observe"
 )
 
 // ---------------------------------------------------------------- shapes
@@ -760,6 +761,7 @@ func families(tier string) []mc.Family {
 			family("lib-write-read/pairs", deepLib, 2, libBody, b[1], "4 core glyph sets x {nothing encoded, nil vector, everything encoded}, ligatures 0..3 per glyph, 3 kerning pairs"),
 			family("indep-read/wide", wideIndep, 1, indepBody, b[2], "all glyph sets of 1-4 names x encodings with at most one glyph at code 65 x ligature patterns {none, 0..3 per glyph} x kerning {none, 3 pairs}"),
 			family("indep-read/pairs", deepIndep, 2, indepBody, b[3], "glyph sets {A}, {.notdef,A}, {A,B}; everything encoded ascending, nothing encoded, nil vector; ligatures 0..3 per glyph; 3 kerning pairs"),
+			sizesFamily(10 * time.Second),
 		}
 	}
 	// thorough; budgets sum to 590 s
@@ -789,7 +791,144 @@ func families(tier string) []mc.Family {
 		family("indep-read/wide", wideIndep, 1, indepBody, b[3], "all glyph sets of 1-4 names x all injective partial encodings over codes {0,65} incl. nil vector x (7 ligature patterns without kerning + ligature patterns {none, 0..3 per glyph} x 6 kerning patterns)"),
 		family("indep-read/pairs", deepIndep, 2, indepBody, b[4], "8 core glyph sets x {nothing encoded, nil vector, everything encoded ascending} x {(ligatures 0..3 per glyph, 3 kerning pairs), (no ligatures, no kerning)}"),
 		family("indep-read/triples", tripleIndep, 3, indepBody, b[5], "glyph set {A} at code 65, 2 ligatures, 1 kerning pair"),
+		sizesFamily(60 * time.Second),
 	}
+}
+
+// sizesFamily: metrics far beyond the small shapes — long text fields (up to the
+// 64 KiB line limit of the reader), glyphs with hundreds of ligatures (one
+// long line), thousands of glyphs and kerning pairs — and ItalicAngle, the one
+// number the writer does not round, over values that need all 17 digits.
+// Library write -> read must return equal metrics; a second cycle must be
+// byte-identical.
+func sizesFamily(budget time.Duration) mc.Family {
+	type cse struct {
+		name string
+		make func() *afm.Metrics
+	}
+	base := func() *afm.Metrics {
+		m := &afm.Metrics{Glyphs: map[string]*afm.GlyphInfo{}, Encoding: make([]string, 256), FontName: "Sizes", FullName: "Sizes Regular", Version: "1.0", Notice: "n"}
+		for i := range m.Encoding {
+			m.Encoding[i] = ".notdef"
+		}
+		m.Glyphs["A"] = &afm.GlyphInfo{WidthX: 600}
+		m.Glyphs["A"].BBox.URx, m.Glyphs["A"].BBox.URy = 590, 700
+		m.Encoding[65] = "A"
+		return m
+	}
+	words := func(n int) string {
+		var sb strings.Builder
+		for i := 0; sb.Len() < n; i++ {
+			if i > 0 {
+				sb.WriteByte(' ')
+			}
+			fmt.Fprintf(&sb, "w%d", i)
+		}
+		return sb.String()[:n-1] + "x"
+	}
+	var cases []cse
+	for _, n := range []int{255, 256, 1000, 4000, 4080, 4088, 4089, 4090, 4095, 4096, 4097, 4100, 5000, 8191, 8192, 8193, 20000, 60000} {
+		n := n
+		cases = append(cases, cse{fmt.Sprintf("Notice of %d bytes", n), func() *afm.Metrics { m := base(); m.Notice = words(n); return m }})
+	}
+	for _, n := range []int{4090, 4097, 30000} {
+		n := n
+		cases = append(cases, cse{fmt.Sprintf("FullName of %d bytes", n), func() *afm.Metrics { m := base(); m.FullName = words(n); return m }})
+		cases = append(cases, cse{fmt.Sprintf("FontName of %d bytes", n), func() *afm.Metrics { m := base(); m.FontName = strings.Repeat("N", n); return m }})
+		cases = append(cases, cse{fmt.Sprintf("glyph name of %d bytes", n), func() *afm.Metrics {
+			m := base()
+			m.Glyphs[strings.Repeat("g", n)] = &afm.GlyphInfo{WidthX: 1}
+			return m
+		}})
+	}
+	for _, n := range []int{10, 100, 250, 300, 400, 1000, 3000} {
+		n := n
+		cases = append(cases, cse{fmt.Sprintf("glyph with %d ligatures", n), func() *afm.Metrics {
+			m := base()
+			m.Glyphs["A"].Ligatures = map[string]string{}
+			for i := 0; i < n; i++ {
+				m.Glyphs["A"].Ligatures[fmt.Sprintf("s%04d", i)] = fmt.Sprintf("lig%04d", i)
+			}
+			return m
+		}})
+	}
+	for _, n := range []int{300, 5000} {
+		n := n
+		cases = append(cases, cse{fmt.Sprintf("%d glyphs and %d kerning pairs", n, 2*n), func() *afm.Metrics {
+			m := base()
+			for i := 0; i < n; i++ {
+				g := &afm.GlyphInfo{WidthX: float64(200 + i%700)}
+				g.BBox.LLx, g.BBox.URx, g.BBox.URy = float64(i%10), float64(150+i%700), 700
+				m.Glyphs[fmt.Sprintf("g%05d", i)] = g
+				m.Kern = append(m.Kern, &afm.KernPair{Left: fmt.Sprintf("g%05d", i), Right: "A", Adjust: funit.Int16(-i % 100)},
+					&afm.KernPair{Left: "A", Right: fmt.Sprintf("g%05d", (i*7)%n), Adjust: funit.Int16(i % 90)})
+			}
+			return m
+		}})
+	}
+	for _, v := range []float64{-9.46232221, 11.3099325, -0.000123456789, 1.0 / 3, 0.1 + 0.2, 123456789.125, -12.300000000000001, 1e-7, 16777217, 0.30000001192092896, 359.99999999999994, -1e15, 5e-324} {
+		v := v
+		cases = append(cases, cse{fmt.Sprintf("ItalicAngle %v", v), func() *afm.Metrics { m := base(); m.ItalicAngle = v; return m }})
+	}
+	return mc.Family{
+		Name: "sizes-and-precision", Items: len(cases), Budget: budget,
+		Rule: fmt.Sprintf("%d metrics values written and re-read by the library: Notice of 255..60000 bytes (every length around 4096 and 8192), FullName / FontName / a glyph name of 4090, 4097, 30000 bytes, one glyph with 10..3000 ligatures (one line each), 300 and 5000 glyphs with twice as many kerning pairs, ItalicAngle over 13 values that need up to 17 significant digits; oracle: deep-equal metrics after one cycle, byte-identical file after a second; non-trivial = all", len(cases)),
+		Body: func(c *mc.Ctx, item int) mc.Verdict {
+			cs := cases[item]
+			m := cs.make()
+			var b1 bytes.Buffer
+			if err := m.Write(&b1); err != nil {
+				return mc.Fail("C15:sizes:write-error", cs.name+": Write returned "+err.Error())
+			}
+			m2, err := afm.Read(bytes.NewReader(b1.Bytes()))
+			c.Step()
+			if err != nil {
+				return mc.Fail("C15:sizes:read-error", cs.name+": the library cannot read what it wrote: "+err.Error())
+			}
+			short := func(s string) string {
+				if len(s) > 300 {
+					return s[:150] + "…" + s[len(s)-100:]
+				}
+				return s
+			}
+			want, got := observe.Dump(m), observe.Dump(m2)
+			if want != got {
+				k := 0
+				for k < len(want) && k < len(got) && want[k] == got[k] {
+					k++
+				}
+				lo := max(0, k-60)
+				return mc.Fail("C15:sizes:write-read-differs", fmt.Sprintf("%s: metrics differ after write/read at byte %d of the dump: wrote …%s, read …%s", cs.name, k, short(want[lo:]), short(got[lo:])))
+			}
+			var b2 bytes.Buffer
+			if err := m2.Write(&b2); err != nil {
+				return mc.Fail("C15:sizes:write-error", cs.name+": second Write returned "+err.Error())
+			}
+			// ligature order within a line is map order (C17): compare sorted lines
+			if sortedLines(b1.String()) != sortedLines(b2.String()) {
+				return mc.Fail("C15:sizes:second-cycle-differs", cs.name+": the second write differs from the first")
+			}
+			v := mc.Pass("equal", true)
+			if c.Render() {
+				v.Render = cs.name + fmt.Sprintf(" → %d bytes, equal after the cycle", b1.Len())
+			}
+			return v
+		},
+		Describe: func(item int) string { return cases[item].name },
+		CrashKey: func(item int) string { return "C15:crash:sizes" },
+	}
+}
+
+func sortedLines(s string) string {
+	lines := strings.Split(s, "\n")
+	for i, l := range lines {
+		if strings.Contains(l, " ; L ") {
+			parts := strings.Split(l, " ; ")
+			sort.Strings(parts)
+			lines[i] = strings.Join(parts, " ; ")
+		}
+	}
+	return strings.Join(lines, "\n")
 }
 
 // ascending keeps "nothing encoded" and "every glyph other than .notdef
